@@ -49,9 +49,12 @@ def tiers(q_shards, q_checks, t_shards, t_checks, q_timeout=600, t_timeout=3 * 3
     return {"quick": q, "thorough": t}
 
 
-def part(name, run, q_checks, t_checks, shards=16, steps=None, tsteps=None):
+def part(name, run, q_checks, t_checks, shards=16, steps=None, tsteps=None, env=None):
     d = {"name": name, "run": run}
     d.update(tiers(shards, q_checks, shards, t_checks, steps=steps, tsteps=tsteps))
+    if env:
+        d["quick"]["env"] = dict(env)
+        d["thorough"]["env"] = dict(env)
     return d
 
 
@@ -110,9 +113,9 @@ PROPS = {
                  "values handed to Compute, Range as a set, Size); any panic on a valid key is a violation. evaluations = cases; non-trivial = an ==-equal key with a different "
                  "representation was used for a lookup, or all hashes collide (constant hasher), or a lookup followed a mutation of memory the key points to; distinct by hash of (type, container, calls). "
                  "The per-process hash key varies between the shard processes."),
-    "C11": instr([part("seq", "^TestC11$", 120, 4000, steps=120, tsteps=160)],
+    "C11": instr([part("seq", "^TestC11$", 120, 4000, steps=120, tsteps=160, env={"GOMAXPROCS": 4})],
                  "Cases are generated long call sequences (all nine mutators incl. Compute with every present/absent x store/delete combination, bulk inserts and bulk deletes of "
-                 "50-20000 keys over universes up to 30000 keys that cross every grow and shrink threshold several times, Clear) executed simultaneously on instance A "
+                 "50-20000 keys over universes up to 120000 keys (tables of thousands of buckets) that cross every grow and shrink threshold several times, Clear; run with GOMAXPROCS=4 so that a resize that works with helper goroutines really runs in parallel) executed simultaneously on instance A "
                  "(size hint from {-5,0,1,96,97,161,1000,100000}), instance B (another hint, other table seeds) and, for small universes of MapOf, instances with a constant and a "
                  "four-bucket hasher (every slot-occupancy pattern of one chain); Map, MapOf (int/string/struct keys), Cache, CacheOf. Oracle: every result identical on all instances "
                  "(this pins the value returned with ok=false too) and equal to the reference map model; full Range/Items + Size/Count checkpoints. evaluations = cases; non-trivial = the "
@@ -128,7 +131,7 @@ PROPS = {
                   npart("long", "^TestC14Long$", {"shards": 4, "checks": 1, "timeout": 900, "env": {"VERIF_C14_LONG": 8}},
                         {"shards": 8, "checks": 1, "timeout": 3 * 3600, "env": {"VERIF_C14_LONG": 300}})],
                  "Cases are generated parallel programs (rapid Custom generator harvested with Example(seed): container in {Map, MapOf, Cache, CacheOf}, profile in {write-heavy, "
-                 "read-heavy, range-under-write, settings churn (SetDefaultExpiration/SetEvictedCallback/DeleteExpired/Items), clear/resize churn over 300-4000 keys, janitor on at 1 ms}, "
+                 "read-heavy, range-under-write, settings churn (SetDefaultExpiration/SetEvictedCallback/DeleteExpired/Items), clear/resize churn over 300-4000 keys, janitor on at 1 ms, big tables of 12000-30000 keys}, "
                  "2-64 goroutines x 50-2000 calls, key range 1-400, per-goroutine op streams from the program's seed), each executed natively as its own Go subtest in a binary built "
                  "with -race. Oracle: the Go race detector (any report fails the subtest) and payload integrity: every value read back (also in visitors, Compute arguments, callbacks, "
                  "Items) is a pointer to a freshly initialised 72-byte payload whose checksum must be consistent. evaluations = programs; non-trivial = >= 2 goroutines share a key range "
